@@ -20,4 +20,6 @@ func init() {
 	add("C08", "C08/hash-respects-equal", "C12/hash-respects-equal", ruleC12Hash)
 	add("C09", "C09/tag-parser", "C04/tag-parser", func(c *Ctx) { ruleTagParser(c, "C04/tag-parser") })
 	add("C18", "C18/version-gate", "C02/version-gate", ruleC02VersionGate)
+	add("C17", "C17/union-variants", "C05/union-variants", ruleC05UnionVariants)
+	add("C08", "C08/decided-by-equal", "C12/decided-by-equal", ruleC12DecidedByEqual)
 }
